@@ -5,7 +5,10 @@
   table).  This is what the progress argument of the all-fuel theorems needs: the machine may be ahead of the
   statement boundary by labels and comments (`Tol`), so the NUMBER of transitions from the boundary state says
   nothing; an executed item of non-zero size does (`tol_next_real`, ConcKPeakRun.lean).
-  `invoke_nav_x86P`, `invoke_x3P` are `invoke_nav_x86`, `invoke_x3` with this one more conjunct (same proofs).
+  `invoke_nav_x86P`, `invoke_x3P` are `invoke_nav_x86`, `invoke_x3` with this one more conjunct (same proofs),
+  and with the program counters in between (`Mid`, Scc/X86/ConcKMid.lean; gap (4b) of
+  `C09_x86_monitor_statement`): no state strictly between the boundary of the `invoke` and the state the `jmp reg`
+  lands on is at a `#ctx` comment, and the landing state is the boundary state of the method or not at one.
 -/
 import Scc.X86.ConcKPeak
 
@@ -48,7 +51,8 @@ theorem invoke_nav_x86P {hooks : Bool} {types : List TypeDecl} {Γa : Ctx} {b : 
       (codeStatementR x86Backend hooks natRen types c.body (c.ctx ++ envCtx')).run kl' = .ok (body, kb') ∧
       XAt cs st4.pc (lcode ++ body) ∧
       (∀ t, t < 267 → t ≠ 2 * Γa.length + 1 → tempVal F.sp st4 (posTemp t) = tempVal F.sp st (posTemp t)) ∧
-      ∃ n1 Xm, n1 < n4 ∧ stepN mon px n1 st = .inl Xm ∧ ¬ NoopAt cs Xm.pc := by
+      (∃ n1 Xm, n1 < n4 ∧ stepN mon px n1 st = .inl Xm ∧ ¬ NoopAt cs Xm.pc) ∧
+      Mid mon px cs n4 st ∧ (stR = st4 ∨ ¬ CtxAt cs stR.pc) := by
   have L := LA.loaded
   have hcapX := X.cap
   simp only [List.length_append, List.length_singleton] at hcapX
@@ -154,10 +158,21 @@ theorem invoke_nav_x86P {hooks : Bool} {types : List TypeDecl} {Γa : Ctx} {b : 
       (loadPtr (posTemp (2 * Γa.length + 1))).length) kb) i0 kc = sR at hkc
     have XR : X3 F (Γa ++ [b]) cfg hs ι κ sR := by rw [← hsR]; exact X3R.setPS Xb _ _
     have hpcR : sR.pc = i0 := by rw [← hsR]; rfl
+    have hninv : ¬ IsCtx (Code.COMMENT (invokePrint x tag args)) := by
+      unfold invokePrint; simp only [String.append_assoc]
+      exact not_isCtx_lit_head _ _ (c := 'i') (by decide) (by decide)
+    have hmid : Mid mon px cs _ st := Mid.trans (mid_comments mon L hatA.left hc0c (by
+        rw [← hc0']
+        exact noCtx_tail_append (noCtx_tail_hook hooks _ hninv) (NoCtx.cons (by nc_item) NoCtx.nil) (by simp))) hk0
+      (MidS.trans (midS_straight mon L hatA.right.left hxb
+          (noCtx_append.1 (by rw [← jump_eq]; exact noCtx_jump _)).1) hkb
+        (midS_one (not_ctxAt_of_xat hatA.right.right (not_isCtx_of_noComment rfl))))
+      (by rw [← hc0']; simp)
     refine ⟨sR, setPS sR (idx + 2) sR.steps, _, km, kl', lcode, kb', body,
       stepN_trans mon px hk0 (stepN_trans mon px hkb ((stepN_one mon px _).trans hkc)), ?_, X3R.setPS XR _ _,
-      hload, hbody, ?_, ?_, c0.length + (loadPtr (posTemp (2 * Γa.length + 1))).length, _, by omega,
-      stepN_trans mon px hk0 hkb, not_noop_of_xat hatA.right.right (by simp [codeSize])⟩
+      hload, hbody, ?_, ?_, ⟨c0.length + (loadPtr (posTemp (2 * Γa.length + 1))).length, _, by omega,
+      stepN_trans mon px hk0 hkb, not_noop_of_xat hatA.right.right (by simp [codeSize])⟩, hmid,
+      Or.inr (by rw [hpcR]; exact not_ctxAt_of_size hi0lt hsz0)⟩
     · refine ⟨by simp [setPS]; omega, ?_, ?_⟩
       · simp [setPS]
       · intro i h1 h2
@@ -283,12 +298,25 @@ theorem invoke_nav_x86P {hooks : Bool} {types : List TypeDecl} {Γa : Ctx} {b : 
           (addAndJumpPre (posTemp (2 * Γa.length + 1)) (jumpLength pos)).length) kb) (idx + 1 + pos) kc)
         (idx + 1 + table.length + pre.length) kd)
       (by simp [setPS, hlenM]; omega) (s1 := _) rfl
+    have hninv : ¬ IsCtx (Code.COMMENT (invokePrint x tag args)) := by
+      unfold invokePrint; simp only [String.append_assoc]
+      exact not_isCtx_lit_head _ _ (c := 'i') (by decide) (by decide)
+    have hmid : Mid mon px cs _ st := Mid.trans (mid_comments mon L hatA.left hc0c (by
+        rw [← hc0']; exact noCtx_tail_hook hooks _ hninv)) hk0
+      (MidS.trans (midS_straight mon L hatA.right.left hxb
+          (noCtx_append.1 (by rw [← addAndJump_eq]; exact noCtx_addAndJump _ _)).1) hkb
+        (MidS.trans (midS_one (not_ctxAt_of_xat hatA.right.right (not_isCtx_of_noComment rfl)))
+          ((stepN_one mon px _).trans hkc)
+          (MidS.trans (midS_one (not_ctxAt_of_getElem hcsTe (not_isCtx_of_noComment rfl)))
+            ((stepN_one mon px _).trans hkd)
+            (midS_one (not_ctxAt_of_getElem hiC (not_isCtx_of_noComment rfl))))))
+      (by rw [← hc0']; simp)
     refine ⟨_, _, _, kl, kl', lcode, kb', body,
       stepN_trans mon px hk0 (stepN_trans mon px hkb (stepN_trans mon px ((stepN_one mon px _).trans hkc)
         (stepN_trans mon px ((stepN_one mon px _).trans hkd) ((stepN_one mon px _).trans hke)))),
       Tol.refl _ _, X3R.setPS (X3R.setPS (X3R.setPS Xb _ _) _ _) _ _, hload, hbody, ?_, ?_,
-      c0.length + (addAndJumpPre (posTemp (2 * Γa.length + 1)) (jumpLength pos)).length, _, by omega,
-      stepN_trans mon px hk0 hkb, not_noop_of_xat hatA.right.right (by simp [codeSize])⟩
+      ⟨c0.length + (addAndJumpPre (posTemp (2 * Γa.length + 1)) (jumpLength pos)).length, _, by omega,
+      stepN_trans mon px hk0 hkb, not_noop_of_xat hatA.right.right (by simp [codeSize])⟩, hmid, Or.inl rfl⟩
     · refine ⟨csM ++ (Code.LAB base :: table) ++ pre ++ [Code.LAB (clauseLabel base c.xtor)], post ++ restM, ?_, ?_⟩
       · rw [hcsT, ← hsfx]; simp [List.append_assoc]
       · simp [setPS, hlenM]; omega
@@ -328,7 +356,8 @@ theorem invoke_x3P {P : Program} {hooks : Bool} {prog : AxCut.Prog} {Γa : Ctx} 
       X3 F (c.ctx ++ envCtx') cfg' hs' ι κ st' ∧
       ∃ k1 k1' items', (codeStatementR x86Backend hooks natRen prog.types c.body (c.ctx ++ envCtx')).run k1 =
           .ok (items', k1') ∧ XAt cs st'.pc items' ∧ LoadProv F Γa.length envCtx' cfg cfg' κ st st' ∧
-        ∃ n1 Xm, n1 < n ∧ stepN mon px n1 st = .inl Xm ∧ ¬ NoopAt cs Xm.pc := by
+        (∃ n1 Xm, n1 < n ∧ stepN mon px n1 st = .inl Xm ∧ ¬ NoopAt cs Xm.pc) ∧
+        Mid mon px cs n st ∧ (stR = st' ∨ ¬ CtxAt cs stR.pc) := by
   have L := LA.loaded
   have hlen : ρa.length = Γa.length := by have := R.len; simpa using this
   have hlenA : Γa.length = c.ctx.length := by simpa using congrArg List.length hargs
@@ -353,7 +382,7 @@ theorem invoke_x3P {P : Program} {hooks : Bool} {prog : AxCut.Prog} {Γa : Ctx} 
   -- both machines up to the `load` of the method
   obtain ⟨k4, cfg4, hst4, h4heap, h4next, h4out, h4temps, hloadM, hcode⟩ :=
     invoke_nav_abs R hfits hb hfresh hpos hclause hlenc hlenA hword hmeth
-  obtain ⟨stR, st4, n4, kl, kl', lcode, kb', body, hn4, T4, X4, hload, hbody, hat4, hmk4, n1, Xm, hn1lt, hn1, hreal1⟩ :=
+  obtain ⟨stR, st4, n4, kl, kl', lcode, kb', body, hn4, T4, X4, hload, hbody, hat4, hmk4, ⟨n1, Xm, hn1lt, hn1, hreal1⟩, hmid4, hland4⟩ :=
     invoke_nav_x86P H hmon LA hnd hfitX hreal X hb hfresh hbchi hd hx hclause (hlenc d hd) hw hXM hi32 hrun hat
   have X4' : X3 F (c.ctx ++ [b]) cfg hs ι κ st4 := X4.ctxCongr (by simp [hargs])
   obtain ⟨cfg', hstep, hout', hnext', R'⟩ := load_enter (Γ'' := c.ctx) (Δ := envCtx') (s' := c.body)
@@ -390,7 +419,7 @@ theorem invoke_x3P {P : Program} {hooks : Bool} {prog : AxCut.Prog} {Γa : Ctx} 
       simp only
       rw [get_clobberTemp _ (by unfold Mock.T_TEMP; omega), h4temps t ht]
     refine ⟨k4 + 1, cfg', st4, stR, hs, n4, stepsTo_trans P _ _ _ _ _ hst4 (stepsTo_one P _ _ hstep), hn4, T4,
-      Scc.Heap.Refine.FrLe.refl hs, hout', hnext', R', ?_, kl', kb', body, hbody, hat4, ?_, n1, Xm, hn1lt, hn1, hreal1⟩
+      Scc.Heap.Refine.FrLe.refl hs, hout', hnext', R', ?_, kl', kb', body, hbody, hat4, ?_, ⟨n1, Xm, hn1lt, hn1, hreal1⟩, hmid4, hland4⟩
     · rw [List.append_nil]
       refine ⟨X4'.bnd, by omega, ?_, ?_, by rw [X4'.out, hA]; exact h4out.symm, X4'.frame, X4'.hrel, ?_⟩
       · intro i hi a0 ha
@@ -469,7 +498,7 @@ theorem invoke_x3P {P : Program} {hooks : Bool} {prog : AxCut.Prog} {Γa : Ctx} 
         exact e1.symm
       subst hcode'
       rw [← hmon] at hx5
-      obtain ⟨n5, steps5, hn5⟩ := x_steps_fwd mon L hnd hat4.left hx5
+      obtain ⟨n5, steps5, hn5, hm5s⟩ := x_steps_fwdM mon L hnd hat4.left hx5 (noCtx_load hload)
       have hLP : LoadProv F Γa.length envCtx' cfg cfg' κ st (setPS st5 (st4.pc + code.length) steps5) := by
         refine ⟨⟨fun t ht => ?_, fun i hi => ?_⟩, Or.inr ⟨r, o, hr, hr0, hg, hk, fun j hj => ⟨?_, ?_, ?_⟩⟩⟩
         · rw [hcfg']
@@ -481,13 +510,23 @@ theorem invoke_x3P {P : Program} {hooks : Bool} {prog : AxCut.Prog} {Γa : Ctx} 
         · rw [hcfg', hlenA]; exact writeFields_get_ptr _ _ _ _ hj
         · rw [tempVal_setPS, hlenA]; exact hval5 j hj
       rw [← hctx]
-      rcases tol_run mon L T4 hn5 with ⟨m5, hm5⟩ | T5
+      rcases tol_run_midS mon L T4 hn5 hm5s with ⟨m5, hm5, hmm5⟩ | T5
       · exact ⟨k4 + 1, cfg', _, _, hs', _, stepsTo_trans P _ _ _ _ _ hst4 (stepsTo_one P _ _ hstep),
           stepN_trans mon px hn4 hm5, Tol.refl _ _, hfrL, hout', hnext', R', X3R.setPS X5 _ _, kl', kb', body,
-          hbody, hat4.right, hLP, n1, Xm, by omega, hn1, hreal1⟩
+          hbody, hat4.right, hLP, ⟨n1, Xm, by omega, hn1, hreal1⟩, Mid.trans hmid4 hn4 hmm5 (by omega), Or.inl rfl⟩
       · exact ⟨k4 + 1, cfg', _, stR, hs', _, stepsTo_trans P _ _ _ _ _ hst4 (stepsTo_one P _ _ hstep),
           hn4, T5, hfrL, hout', hnext', R', X3R.setPS X5 _ _, kl', kb', body, hbody, hat4.right, hLP,
-          n1, Xm, hn1lt, hn1, hreal1⟩
+          ⟨n1, Xm, hn1lt, hn1, hreal1⟩, hmid4, (by
+            rcases hland4 with e | h
+            · left
+              have hle := T5.le
+              have heq := T5.eq
+              have hpc : stR.pc = (setPS st5 (st4.pc + code.length) steps5).pc := by
+                have : stR.pc = st4.pc := by rw [e]
+                simp only [setPS] at hle ⊢
+                omega
+              rw [heq, hpc]; rfl
+            · exact Or.inr h)⟩
 
 end Invoke3P
 
